@@ -350,9 +350,9 @@ class SVGLexicalParser:
             if cmd is None:
                 return
             elif cmd == "z" or cmd == "Z":
+                self.parser.closed(relative=cmd.islower())
                 if self._more():
                     raise ValueError
-                self.parser.closed(relative=cmd.islower())
                 self.inline_close = None
                 continue
             elif cmd == "m":
